@@ -69,6 +69,18 @@ _dtype_map = {'str': 'string', 'bool': 'boolean'}
 special_dtypes = ["url", "person", "text"]
 
 
+def _normalize_dtype(dtype):
+    """
+    Returns the lower case name of a dtype with the shorthands 'str' and 'bool'
+    resolved. valid_type accepts these spellings, the converter lookup in get
+    and set has to resolve them the same way.
+    """
+    dtype = dtype.lower()
+    if dtype in _dtype_map:
+        dtype = _dtype_map[dtype]
+    return dtype
+
+
 def infer_dtype(value):
     """
     Tries to identify the odml data type for a provided value.
@@ -101,16 +113,15 @@ def valid_type(dtype):
     if not isinstance(dtype, str):
         return False
 
-    dtype = dtype.lower()
-    if dtype in _dtype_map:
-        dtype = _dtype_map[dtype]
+    dtype = _normalize_dtype(dtype)
 
-    if hasattr(DType, dtype):
+    # Only the names of the DType members are valid; DType is a str subclass,
+    # so checking for an attribute would accept every str method name as well.
+    if dtype in DType.__members__:
         return True
 
     # Check odML tuple dtype.
-    rexp = re.compile("^[1-9][0-9]*-tuple$")
-    if len(rexp.findall(dtype)) == 1:
+    if re.fullmatch("[1-9][0-9]*-tuple", dtype):
         return True
 
     return False
@@ -129,6 +140,7 @@ def get(string, dtype=None):
     """
     if not dtype:
         return str_get(string)
+    dtype = _normalize_dtype(dtype)
     # special case, as the count-number is included in the type-name
     if dtype.endswith("-tuple"):
         return tuple_get(string, int(dtype[:-6]))
@@ -148,6 +160,7 @@ def set(value, dtype=None):
     if not dtype:
         return str_set(value)
 
+    dtype = _normalize_dtype(dtype)
     if dtype.endswith("-tuple"):
         return tuple_set(value)
 
